@@ -264,13 +264,24 @@ class Translator:
         return r
 
     # ---- declarations & statements ---------------------------------------------------
-    def is_lock_decl(self, n):
+    def is_lock_decl(self, n, rest=()):
+        """a declaration whose scope is a critical section: std::lock_guard / scoped_lock on m_lock, or a
+        std::unique_lock on m_lock constructed from the mutex alone and never mentioned again in its scope
+        (unlock(), lock(), release(), being handed to something ... would end or suspend the protection: such a
+        unique_lock is conservatively taken to protect nothing)"""
         if n.get("kind") != "DeclStmt":
             return False
         for v in n.get("inner", []):
             if v.get("kind") == "VarDecl":
                 t = v.get("type", {}).get("qualType", "")
-                if any(l in t for l in LOCK_TYPES) and "m_lock" in json.dumps(v.get("inner", [])):
+                js = json.dumps(v.get("inner", []))
+                if any(l in t for l in LOCK_TYPES) and "m_lock" in js:
+                    if "unique_lock" in t:
+                        if any(x in js for x in ("defer_lock", "try_to_lock", "adopt_lock")):
+                            return False
+                        vid = v.get("id")
+                        if vid and ('"id": "%s"' % vid) in json.dumps(list(rest)):
+                            return False
                     return True
         return False
 
@@ -358,7 +369,7 @@ class Translator:
         items = [c for c in comp.get("inner", []) if c]
         out = []
         for i, c in enumerate(items):
-            if self.is_lock_decl(c):
+            if self.is_lock_decl(c, items[i + 1:]):
                 rest = {"kind": "CompoundStmt", "inner": items[i + 1:]}
                 out.append("SLocked (%s)" % self.block(rest))
                 return "SSeq [%s]" % "; ".join(out)
